@@ -66,10 +66,11 @@ Record fixes := {
   fx7 : bool;   (* C19-F7: pemx.ReadPEM stops at a nil block *)
   fx8 : bool;   (* C19-F8: parseYAML rejects mappings with non-string keys *)
   fx9 : bool;   (* C19-F9: checked assertions in the scopes-matcher decode hook *)
+  fx10 : bool;  (* C19-F10: readPEMContents / pemx.ReadPEM reject undecodable trailing data (and a file without any block) *)
   fx18 : bool }. (* C18-F2 (not a C19 finding): every fsnotify event re-examines the file *)
 
-Definition no_fixes := {| fx1 := false; fx2 := false; fx3 := false; fx4 := false; fx5 := false; fx6 := false; fx7 := false; fx8 := false; fx9 := false; fx18 := false |}.
-Definition all_fixes := {| fx1 := true; fx2 := true; fx3 := true; fx4 := true; fx5 := true; fx6 := true; fx7 := true; fx8 := true; fx9 := true; fx18 := true |}.
+Definition no_fixes := {| fx1 := false; fx2 := false; fx3 := false; fx4 := false; fx5 := false; fx6 := false; fx7 := false; fx8 := false; fx9 := false; fx10 := false; fx18 := false |}.
+Definition all_fixes := {| fx1 := true; fx2 := true; fx3 := true; fx4 := true; fx5 := true; fx6 := true; fx7 := true; fx8 := true; fx9 := true; fx10 := true; fx18 := true |}.
 
 (** * Key store *)
 
@@ -224,6 +225,8 @@ Record kinput := {
   i_path_empty : bool;                   (* tlsx: no path configured *)
   i_keyid : string;                      (* configured key_id, "" = first entry *)
   i_file : option (list block);          (* None: Stat/ReadFile failed *)
+  i_trailing : bool;                     (* bytes that do not decode as a PEM block follow the last block: the file is
+                                            cut inside a block, or has other garbage at its end *)
   i_chain_ok : nat -> bool;              (* ValidateChain per public key *)
   i_usable : nat -> bool }.              (* pkix.ValidateCertificate(digitalSignature, now) per public key *)
 
@@ -232,9 +235,16 @@ Definition select (f : fixes) (keyid : string) (es : list entry) : res entry :=
     match es with [] => Panic SEntries0 | e :: _ => Ok e end
   else match get_key keyid es with Some e => Ok e | None => Err end.
 
+(** readPEMContents: the blocks decoded before the first undecodable rest; repaired: such a rest is an error *)
+Definition eff_file (f : fixes) (i : kinput) : option (list block) :=
+  match i_file i with
+  | Some bl => if fx10 f && i_trailing i then None else Some bl
+  | None => None
+  end.
+
 Definition load (c : comp) (f : fixes) (i : kinput) : res kstate :=
   if match c with Tls => i_path_empty i | _ => false end then Err else
-  match i_file i with
+  match eff_file f i with
   | None => Err
   | Some bl =>
     bind (create_key_store f (i_chain_ok i) bl) (fun es =>
@@ -289,9 +299,10 @@ Fixpoint ts_loop (strict : bool) (bl : list block) (acc : list nat) : res (list 
 
 Definition trust_store (f : fixes) (strict : bool) (i : ts_input) : res (list nat) :=
   match ts_blocks i with
-  | [] => if fx7 f then Ok [] else Panic SNilBlock
+  | [] => if fx10 f then Err else if fx7 f then Ok [] else Panic SNilBlock
   | bl => bind (ts_loop strict bl [])
-               (fun acc => if ts_trailing i && negb (fx7 f) then Panic SNilBlock else Ok acc)
+               (fun acc => if ts_trailing i then (if fx10 f then Err else if fx7 f then Ok acc else Panic SNilBlock)
+                           else Ok acc)
   end.
 
 (** * Rule factory over the decoded YAML value tree *)
@@ -483,7 +494,7 @@ Inductive rs_out := RsApplied (ids : list string) | RsRejected (ids : list strin
 Definition process (f : fixes) (proxy has_default : bool) (st : list string) (e : rs_event) : rs_out :=
   match ev_parse e with
   | PRejected => RsRejected st
-  | PPanics => if fx8 f then RsRejected st else RsExit SDecode
+  | PPanics => RsExit SDecode     (* there is no recover around the decoder; fx8 is a pre-check that changes the DATA *)
   | PParsed rs =>
     if negb (String.eqb (ev_version e) "1alpha4") then RsRejected st else   (* isVersionSupported *)
     match load_rules f proxy has_default rs with
@@ -571,7 +582,10 @@ Definition composite_extract (l : list (option string)) : res string :=
     chain `Is` (so a panic carrying an authentication error is a 401); a value
     that is not an error, or an error of no such kind, is a 500. *)
 Inductive pkind := PkAuthn | PkAuthz | PkComm | PkArg | PkNoRule | PkOther.
-Inductive handled := Answered (status : Z) | Panicked (k : pkind).
+Inductive handled :=
+| Answered (status : Z)
+| Panicked (k : pkind)                      (* before anything was written *)
+| PanickedAfter (status : Z).               (* the handler had already sent the header with [status] *)
 Definition recovery_mw (h : handled) : Z :=
   match h with
   | Answered s => s
@@ -581,4 +595,29 @@ Definition recovery_mw (h : handled) : Z :=
   | Panicked PkArg => 400
   | Panicked PkNoRule => 404
   | Panicked PkOther => 500
+  | PanickedAfter s => s                      (* the status line is on the wire; the error handler's code is ignored *)
   end%Z.
+
+(** * Sequences: the watcher loops.  The key-store watcher starts one goroutine per event, the
+    provider loop handles one event after the other; a run is alive as long as no step exits. *)
+Inductive run (S : Type) := Alive (st : S) | Dead (s : site).
+Arguments Alive {S} st. Arguments Dead {S} s.
+
+Fixpoint reload_run (c : comp) (f : fixes) (st : kstate) (is : list kinput) : run kstate :=
+  match is with
+  | [] => Alive st
+  | i :: r => match on_changed c f st i with
+              | Reloaded st' => reload_run c f st' r
+              | Kept st' => reload_run c f st' r
+              | ProcessExit s => Dead s
+              end
+  end.
+
+Fixpoint fs_run (f : fixes) (st : option nat) (es : list fs_event) : run (option nat) :=
+  match es with
+  | [] => Alive st
+  | e :: r => match fs_changed f st e with
+              | FsDone x => fs_run f (fr_state x) r
+              | FsExit s => Dead s
+              end
+  end.
